@@ -1,5 +1,5 @@
 (* C21 -- undefined values behave as documented for every undefined type.
-   Finite domain: 8 types x the operation table (Spec/UndefSpec.v, [domain], 1868 cells).
+   Finite domain: 8 types x the operation table (Spec/UndefSpec.v, [domain], 2724 cells).
    The theorems below are about the class tables of Model/UndefSnapshot.v; the check
    regenerates the tables from /repo on every run and re-proves the same statements about
    them through C21_table_sound (build/C21/Gen_undef.v). *)
@@ -41,8 +41,8 @@ Proof. vm_compute. split; reflexivity. Qed.
 (* the model never falls outside the modelled fragment on the domain (no Unmodelled result
    hides behind a documented outcome: [agrees] is false on Unmodelled), and the domain is
    the whole cross product minus the cells the documentation is silent about *)
-Theorem C21_domain_size : length all_cells = 1920%nat /\ length domain = 1868%nat /\
-  forallb (fun x => match snd x with OpPickle | OpRevContains _ | OpArith Mod Rev (OB KStr) | OpArith Mod Rev (OB KMarkup) | OpArith Mul Rev (OB KMarkup) => true | _ => false end) unspecified_cells = true.
+Theorem C21_domain_size : length all_cells = 2784%nat /\ length domain = 2724%nat /\
+  forallb (fun x => match snd x with OpPickle | OpRevContains _ | OpArith Mod Rev (OB KStr) | OpArith Mod Rev (OB KBytes) | OpArith Mod Rev (OB KMarkup) | OpArith Mul Rev (OB KMarkup) => true | _ => false end) unspecified_cells = true.
 Proof. vm_compute. repeat split; reflexivity. Qed.
 Print Assumptions C21_domain_size.
 
